@@ -31,6 +31,19 @@ int pipe_init(int *read, int *write)
     goto finish;
   }
 
+  // When the parent's stdin, stdout or stderr is closed, `pipe` hands out their
+  // file descriptors. Move the pipe out of the way: in the child, these file
+  // descriptors are overwritten when its standard streams are set up.
+  r = handle_above_std(&pair[0]);
+  if (r < 0) {
+    goto finish;
+  }
+
+  r = handle_above_std(&pair[1]);
+  if (r < 0) {
+    goto finish;
+  }
+
   r = handle_cloexec(pair[0], true);
   if (r < 0) {
     goto finish;
